@@ -101,8 +101,8 @@ impl Scenario for CryptSc {
             "td-protocol" | "tl-beacon" => {
                 if class == "td-protocol" && x.chance(1, 12) {
                     // occasionally a large committee: identifiers up to 255 (0x7f / 0x80 / 0xff boundaries)
-                    p.set("n", *x.pick(&[128i64, 129, 200, 255]));
-                    p.set("t", x.range(2, 4) as i64);
+                    p.set("n", *x.pick(&[128i64, 129, 200, 255, 255, 240]));
+                    p.set("t", *x.pick(&[2i64, 3, 4, 8, 9, 9, 10]));
                 }
                 let nf = x.below(4);
                 let kind = if class == "td-protocol" { K_DSHARE } else { K_SIGSHARE };
@@ -448,7 +448,26 @@ fn thresh_decrypt(plan: &Plan, lib: &dyn Lib, rec: &mut Rec) {
     install_faults(&mut c, &plan.faults);
     let comb = n + 1;
     // in a large committee only a handful of participants answer: the highest identifiers and a few drawn ones
-    let senders: Vec<usize> = if big { let mut v: Vec<usize> = (n - t..n).collect(); v.push(126.min(n - 1)); v.push(127.min(n - 1)); v.push(x.below(n as u64) as usize); v.sort(); v.dedup(); x.shuffle(&mut v); v } else { (0..n).collect() };
+    let senders: Vec<usize> = if big {
+        let mut v: Vec<usize> = match x.below(4) {
+            // exactly t answers: one identifier at one end of 1..=n and t-1 crowded at the other end
+            0 => std::iter::once(0).chain(n - (t - 1)..n).collect(),
+            1 => std::iter::once(n - 1).chain(0..t - 1).collect(),
+            _ => {
+                let mut v: Vec<usize> = (n - t..n).collect();
+                v.push(126.min(n - 1));
+                v.push(127.min(n - 1));
+                v.push(x.below(n as u64) as usize);
+                v
+            }
+        };
+        v.sort();
+        v.dedup();
+        x.shuffle(&mut v);
+        v
+    } else {
+        (0..n).collect()
+    };
     for i in senders {
         c.sim.send(i + 1, comb, kernel::sim::Msg { kind: K_DSHARE, corr: i as u64, parts: vec![vec![i as u8], dshares[i].clone()] });
     }
